@@ -78,6 +78,8 @@ pub enum Mode {
 pub struct Step {
     pub mode: Mode,
     pub argv: Vec<Vec<u8>>,
+    /// declared environment variables that are set during this step
+    pub env: Vec<(String, Vec<u8>)>,
 }
 
 pub struct Case {
@@ -111,11 +113,13 @@ pub fn decode(bytes: &[u8]) -> Case {
     let n = 1 + u.weighted(&[4, 3, 2]);
     let mut steps = Vec::new();
     let mut excluded = 0;
+    let declared = declared_envs(&level);
     for _ in 0..n {
         let mode = gen_mode(&mut u);
         let mut argv = gen_wild_argv(&mut u, &level);
         excluded += sanitize_argv(&mut argv);
-        steps.push(Step { mode, argv });
+        let env = gen_env(&mut u, &declared);
+        steps.push(Step { mode, argv, env });
     }
     Case {
         level,
@@ -132,7 +136,29 @@ pub enum StepOut {
     Panic(String, String),
 }
 
+fn apply_env(env: &[(String, Vec<u8>)]) {
+    use std::os::unix::ffi::OsStringExt;
+    let old: Vec<std::ffi::OsString> = std::env::vars_os()
+        .map(|(k, _)| k)
+        .filter(|k| k.to_string_lossy().starts_with("BPAF_VERIF_W"))
+        .collect();
+    for k in old {
+        std::env::remove_var(k);
+    }
+    for (k, v) in env {
+        std::env::set_var(k, std::ffi::OsString::from_vec(v.clone()));
+    }
+}
+
 pub fn run_step(p: &bpaf::OptionParser<V>, level: &Level, s: &Step) -> StepOut {
+    // the worker is single threaded and owns its environment
+    apply_env(&s.env);
+    let r = run_step_inner(p, level, s);
+    apply_env(&[]);
+    r
+}
+
+fn run_step_inner(p: &bpaf::OptionParser<V>, level: &Level, s: &Step) -> StepOut {
     let mut argv = s.argv.clone();
     let cfg = match &s.mode {
         Mode::Parse { named } => RunCfg {
@@ -293,14 +319,25 @@ pub fn check_case(case: &Case, ctx: &mut Ctx) -> Verdict {
         }
     }
     // and on a freshly built parser
-    if let Ok(fresh) = guarded(|| build_level(&case.level)) {
-        let o = run_step(&fresh, &case.level, &case.steps[0]);
-        ctx.eval(1);
-        if o != outs[0] {
-            return Verdict::fail(
-                "outcome-depends-on-parser-instance",
-                format!("{:?} vs {:?}", outs[0], o),
-            );
+    for (i, s) in case.steps.iter().enumerate() {
+        if let Ok(fresh) = guarded(|| build_level(&case.level)) {
+            let o = run_step(&fresh, &case.level, s);
+            ctx.eval(1);
+            if o != outs[i] {
+                return Verdict::fail(
+                    "outcome-depends-on-earlier-runs",
+                    format!(
+                        "step {} ({:?} {:?}, environment {:?}) on the OptionParser that had already run {} other steps: {:?}; on a fresh OptionParser: {:?}",
+                        i,
+                        s.mode,
+                        show_argv(&s.argv),
+                        s.env.iter().map(|(k, v)| format!("{}={}", k, String::from_utf8_lossy(v))).collect::<Vec<_>>(),
+                        i,
+                        outs[i],
+                        o
+                    ),
+                );
+            }
         }
     }
     Verdict::Pass
@@ -350,7 +387,7 @@ impl Prop for C04 {
         let case = decode(bytes);
         json!({
             "definition": show_level(&case.level),
-            "history": case.steps.iter().map(|s| json!({"mode": format!("{:?}", s.mode), "argv": show_argv(&s.argv)})).collect::<Vec<_>>(),
+            "history": case.steps.iter().map(|s| json!({"mode": format!("{:?}", s.mode), "argv": show_argv(&s.argv), "env": s.env.iter().map(|(k, v)| format!("{}={}", k, String::from_utf8_lossy(v))).collect::<Vec<_>>()})).collect::<Vec<_>>(),
         })
     }
     fn regressions(&self) -> Vec<Regression> {
@@ -368,6 +405,10 @@ impl Prop for C04 {
                 run: reg_adjacent_pure,
             },
             Regression {
+                name: "completion-of-empty-line-with-env-backed-flag",
+                run: reg_comp_empty_env,
+            },
+            Regression {
                 name: "hidden-adjacent-group-with-pure-lead",
                 run: reg_adjacent_pure_hidden,
             },
@@ -381,6 +422,7 @@ fn one(level: Level, mode: Mode, argv: &[&str], ctx: &mut Ctx) -> Verdict {
         steps: vec![Step {
             mode,
             argv: crate::outcome::argv_of(argv),
+            env: Vec::new(),
         }],
         excluded: 0,
     };
@@ -436,4 +478,21 @@ fn reg_adjacent_pure(ctx: &mut Ctx) -> Verdict {
         &["-f"],
         ctx,
     )
+}
+
+fn reg_comp_empty_env(ctx: &mut Ctx) -> Verdict {
+    use crate::mk::*;
+    let case = Case {
+        level: lvl(seq(vec![with_env(sw("", &["flag"]), "BPAF_VERIF_W0")])),
+        steps: vec![Step {
+            mode: Mode::Complete {
+                rev: 0,
+                named: false,
+            },
+            argv: Vec::new(),
+            env: vec![("BPAF_VERIF_W0".into(), b"1".to_vec())],
+        }],
+        excluded: 0,
+    };
+    check_case(&case, ctx)
 }
